@@ -163,3 +163,149 @@ Print Assumptions C09_fix_conservative_t0.
 Theorem C09_clamp : forall lo r, lo <= clamp lo r /\ (lo <= r -> clamp lo r == r).
 Proof. exact (fun lo r => conj (C09_Policy.clamp_ge lo r) (C09_Policy.clamp_id lo r)). Qed.
 Print Assumptions C09_clamp.
+
+(* ---------------------------------------------------------------------------------------------
+   The same function in binary32 (Model/PolicyF32.v: Flocq binary_float 24 128, round to nearest
+   even, with NaN, infinities, signed zeros, subnormals and overflow of the sum):
+     policy_f32 t stored     the vector r / sum of the floored cumulated regrets
+     policy_aborts t stored  true iff one of assert!(p >= 0.), assert!(p <= 1.) fires
+     the `_gen flag` variants take the flag REGRET_DIVISOR_AT_LEAST_ONE as a parameter.
+   t is the epoch counter (a usize: 0 <= t < 2^64), stored the stored regrets in edge order.
+   These theorems use the real numbers (B2R) and therefore the standard library's axioms for R. *)
+From Coq Require Import Reals.
+From Flocq Require Import Core.Core IEEE754.BinarySingleNaN.
+From RP Require Import Model.BetF32 Model.PolicyF32.
+From RP Require Proofs.C09_F32.
+
+(* the model's floor is the generated POLICY_MIN = f32::MIN_POSITIVE = 2^-126 *)
+Theorem C09_f32_policy_min :
+  POLICY_MIN = F32_MIN_POSITIVE /\ B2R policy_min = bpow radix2 (-126) /\ f32_one = of_usize 1.
+Proof.
+  exact (conj C09_F32.policy_min_generated (conj C09_F32.B2R_policy_min C09_F32.f32_one_of_usize)).
+Qed.
+Print Assumptions C09_f32_policy_min.
+
+(* the code as generated is the variant with the flag's current value *)
+Theorem C09_f32_generated :
+  policy_f32 = policy_f32_gen REGRET_DIVISOR_AT_LEAST_ONE /\
+  policy_aborts = policy_aborts_gen REGRET_DIVISOR_AT_LEAST_ONE /\
+  REGRET_DIVISOR_AT_LEAST_ONE = true.
+Proof. exact (conj eq_refl (conj eq_refl C09_F32.flag_generated)). Qed.
+Print Assumptions C09_f32_generated.
+
+(* no stored regret is +infinity (NaN, -infinity, negative, zero, subnormal, huge all allowed, the
+   empty list too): the assertions never fire.  Example: C09_F32.ex_mixed, ex_no_abort_hyp *)
+Theorem C09_f32_no_abort : forall t stored, (0 <= t < 2 ^ 64)%Z ->
+  (forall r, In r stored -> r <> pos_inf) -> policy_aborts t stored = false.
+Proof. exact C09_F32.no_abort. Qed.
+Print Assumptions C09_f32_no_abort.
+
+(* ... every entry is a finite binary32 number in [0, 1] ... *)
+Theorem C09_f32_entries_unit : forall t stored, (0 <= t < 2 ^ 64)%Z ->
+  (forall r, In r stored -> r <> pos_inf) ->
+  Forall (fun p => is_finite p = true /\ (0 <= B2R p <= 1)%R) (policy_f32 t stored).
+Proof. exact C09_F32.entries_unit. Qed.
+Print Assumptions C09_f32_entries_unit.
+
+(* ... in IEEE terms: not NaN, p >= 0. and p <= 1. both true *)
+Theorem C09_f32_entries_ok : forall t stored, (0 <= t < 2 ^ 64)%Z ->
+  (forall r, In r stored -> r <> pos_inf) ->
+  Forall (fun p => is_nan p = false /\ fge32 p f32_zero = true /\ fle32 p f32_one = true)
+    (policy_f32 t stored).
+Proof. exact C09_F32.entries_ok. Qed.
+Print Assumptions C09_f32_entries_ok.
+
+(* a stored regret +infinity aborts (inf / d = inf, sum = inf, inf / inf = NaN).
+   Example: C09_F32.ex_infinite *)
+Theorem C09_f32_aborts_on_infinite_regret : forall t stored, (0 <= t < 2 ^ 64)%Z ->
+  In pos_inf stored -> policy_aborts t stored = true.
+Proof. exact C09_F32.aborts_on_infinite_regret. Qed.
+Print Assumptions C09_f32_aborts_on_infinite_regret.
+
+Theorem C09_f32_infinite_regret_gives_nan : forall t stored, (0 <= t < 2 ^ 64)%Z ->
+  In pos_inf stored -> In B754_nan (policy_f32 t stored).
+Proof. exact C09_F32.infinite_regret_gives_nan. Qed.
+Print Assumptions C09_f32_infinite_regret_gives_nan.
+
+(* the exact characterisation: the repaired code aborts iff a stored regret is +infinity *)
+Theorem C09_f32_aborts_iff : forall t stored, (0 <= t < 2 ^ 64)%Z ->
+  (policy_aborts t stored = true <-> In pos_inf stored).
+Proof. exact C09_F32.aborts_iff. Qed.
+Print Assumptions C09_f32_aborts_iff.
+
+(* the original divisor (flag false) on a fresh profile, t = 0: division by +0.0; it aborts iff a
+   stored regret is +infinity or a positive finite number *)
+Theorem C09_f32_unfixed_aborts_iff : forall stored,
+  policy_aborts_gen false 0 stored = true <->
+  exists r, In r stored /\ (r = pos_inf \/ (is_finite r = true /\ (0 < B2R r)%R)).
+Proof. exact C09_F32.unfixed_t0_aborts_iff. Qed.
+Print Assumptions C09_f32_unfixed_aborts_iff.
+
+(* concrete witness that the flag matters: t = 0 and the single stored regret 3.0 (or [5; -1]):
+   abort (the entry is NaN) without the fix, [1.0] and no abort with it *)
+Theorem C09_f32_needs_divisor_fix :
+  policy_aborts_gen false 0 [of_usize 3] = true /\
+  map (@B2SF prec emax) (policy_f32_gen false 0 [of_usize 3]) = [SpecFloat.S754_nan] /\
+  policy_aborts_gen false 0 [of_usize 5; of_usize (-1)] = true /\
+  policy_aborts_gen true 0 [of_usize 3] = false /\
+  map (@B2SF prec emax) (policy_f32_gen true 0 [of_usize 3]) =
+    [SpecFloat.S754_finite false 8388608 (-23)] /\
+  policy_aborts_gen true 0 [of_usize 5; of_usize (-1)] = false /\
+  policy_aborts 0 [of_usize 5; of_usize (-1)] = false.
+Proof. exact C09_F32.ex_needs_divisor_fix. Qed.
+Print Assumptions C09_f32_needs_divisor_fix.
+
+(* the repair changes nothing once an epoch has been counted *)
+Theorem C09_f32_fix_conservative : forall t stored, (1 <= t)%Z ->
+  policy_f32_gen false t stored = policy_f32_gen true t stored.
+Proof. exact C09_F32.fix_conservative. Qed.
+Print Assumptions C09_f32_fix_conservative.
+
+(* PARTIAL (needs the hypothesis that the binary32 sum of the floored regrets does not overflow;
+   full statement wished for: the entries sum to 1 up to rounding for every input without +inf.
+   That is false: when the sum overflows every entry is +0.0, see C09_f32_sum_overflow_all_zero
+   and C09_F32.ex_overflow).  With u = 2^-24, n = number of actions, the real-number sum S of the
+   entries satisfies (1-u)/(1+u)^(n-1) - n*2^-150 <= S <= (1+u)/(1-u)^(n-1) + n*2^-150;
+   the term n*2^-150 accounts for quotients that underflow (no hypothesis on them is needed).
+   No hypothesis on t or on infinities: a +infinity makes the sum infinite.
+   Example: C09_F32.ex_sum_finite *)
+Theorem C09_f32_sum_close_partial : forall t stored, stored <> [] ->
+  is_finite (fsum32 (map floored32 (map (cumulated_gen REGRET_DIVISOR_AT_LEAST_ONE t) stored))) = true ->
+  let n := length stored in
+  let u := bpow radix2 (-24) in
+  let S := fold_right Rplus 0%R (map (@B2R prec emax) (policy_f32 t stored)) in
+  ((1 - u) / (1 + u) ^ (n - 1) - INR n * bpow radix2 (-150) <= S
+     <= (1 + u) / (1 - u) ^ (n - 1) + INR n * bpow radix2 (-150))%R.
+Proof. exact C09_F32.sum_close. Qed.
+Print Assumptions C09_f32_sum_close_partial.
+
+(* first-order form for at most 2^23 actions: | S - 1 | <= n * 2^-23 + n * 2^-150 *)
+Theorem C09_f32_sum_close_first_order_partial : forall t stored, stored <> [] ->
+  (Z.of_nat (length stored) <= 2 ^ 23)%Z ->
+  is_finite (fsum32 (map floored32 (map (cumulated_gen REGRET_DIVISOR_AT_LEAST_ONE t) stored))) = true ->
+  (Rabs (fold_right Rplus 0 (map (@B2R prec emax) (policy_f32 t stored)) - 1)
+     <= INR (length stored) * bpow radix2 (-23) + INR (length stored) * bpow radix2 (-150))%R.
+Proof. exact C09_F32.sum_close_first_order. Qed.
+Print Assumptions C09_f32_sum_close_first_order_partial.
+
+(* the complementary case: the sum overflows to +infinity, every entry is +0.0 (no abort, but the
+   result is not a distribution).  Example: C09_F32.ex_overflow, ex_sum_overflows *)
+Theorem C09_f32_sum_overflow_all_zero : forall t stored, (0 <= t < 2 ^ 64)%Z ->
+  (forall r, In r stored -> r <> pos_inf) ->
+  is_finite (fsum32 (map floored32 (map (cumulated_gen REGRET_DIVISOR_AT_LEAST_ONE t) stored))) = false ->
+  Forall (fun p => p = B754_zero false) (policy_f32 t stored).
+Proof. exact C09_F32.sum_overflow_all_zero. Qed.
+Print Assumptions C09_f32_sum_overflow_all_zero.
+
+(* concrete runs of the binary32 model *)
+Theorem C09_f32_examples :
+  (map (@B2SF prec emax) (policy_f32 5 [of_usize 3; B754_infinity true; B754_nan; of_usize (-2)]) =
+     [SpecFloat.S754_finite false 8388608 (-23); SpecFloat.S754_finite false 13981013 (-149);
+      SpecFloat.S754_finite false 13981013 (-149); SpecFloat.S754_finite false 13981013 (-149)] /\
+   policy_aborts 5 [of_usize 3; B754_infinity true; B754_nan; of_usize (-2)] = false) /\
+  (map (@B2SF prec emax) (policy_f32 5 [of_usize 3; pos_inf; of_usize (-2)]) =
+     [SpecFloat.S754_zero false; SpecFloat.S754_nan; SpecFloat.S754_zero false] /\
+   policy_aborts 5 [of_usize 3; pos_inf; of_usize (-2)] = true /\
+   In pos_inf [of_usize 3; pos_inf; of_usize (-2)]).
+Proof. exact (conj C09_F32.ex_mixed C09_F32.ex_infinite). Qed.
+Print Assumptions C09_f32_examples.
